@@ -17,7 +17,7 @@ from hypothesis import strategies as st
 from .. import core
 from . import _store_common as sc
 from . import c09
-from ._store_machine import BULK, OTHER, StoreMachine
+from ._store_machine import BULK, OTHER, StoreMachine, plan_strategy, replay_any, run_plan
 
 SHARDED = True
 
@@ -494,13 +494,14 @@ def run(ctx: core.Ctx):
         'crash model: a file-system call raises before or after taking effect (no torn writes)',
         'interrupted merges may be recovered by moving already-moved inputs back and removing the partial directory',
     ]
-    core.run_machine(ctx, C10Machine, max_examples=ctx.n(50, 250), steps=40, salt=0)
+    core.run_machine(ctx, C10Machine, max_examples=ctx.n(30, 200), steps=40, salt=0)
+    core.run_given(ctx, plan_strategy(lookups=True, faults=True), lambda p: run_plan(C10Machine, ctx, p), ctx.n(30, 250), salt=20)
     core.run_given(ctx, scenario(), lambda c: body(ctx, c), ctx.n(5, 40), salt=50, shrink=False)
     ctx.extra['crash_points_exhaustive_per_scenario'] = True
 
 
 def replay(ctx: core.Ctx, case):
-    if isinstance(case, list):
-        core.replay_machine(C10Machine, ctx, case)
+    if isinstance(case, list) or case.get('plan'):
+        replay_any(C10Machine, ctx, case)
     else:
         body(ctx, case)
